@@ -72,6 +72,17 @@ def dyadic_tie(rng):
                 en=[0.0, gap], kind="exact-tie", avail=gap, gap=gap)
 
 
+def orthogonal_case(rng):
+    """velocity exactly orthogonal to the direction (b = 0), downward hop: both roots have the same modulus,
+    so only the property itself is checked (energy, direction, minimality), not the sign chosen by the model"""
+    ndim = rng.choice([2, 3, 4]); i, j = rng.sample(range(ndim), 2)
+    v = [0.0] * ndim; d = [0.0] * ndim
+    v[i] = rng.choice([-1, 1]) * 2.0 ** rng.randint(-6, 0); d[j] = rng.choice([-1, 1]) * 2.0 ** rng.randint(-3, 3)
+    mass = [2.0 ** rng.randint(0, 12) for _ in range(ndim)]
+    gap = -2.0 ** rng.randint(-12, -4)
+    return dict(ndim=ndim, nst=2, mass=mass, v=v, dir=d, state=1, target=0, en=[gap, 0.0], kind="orthogonal-down", avail=0.0, gap=gap)
+
+
 def drive_hop(kind, c, rng):
     """Run the real hop_to_it; returns observation dict."""
     nst, ndim = c["nst"], c["ndim"]
@@ -160,10 +171,17 @@ def hop_oracle(c, o):
 
 def hop_cases(res, rng, n):
     cases, meta, bad = [], [], []
-    gens = [gen_hop(rng, k) for k in range(n)] + [dyadic_tie(rng) for _ in range(max(4, n // 20))]
+    gens = [gen_hop(rng, k) for k in range(n)] + [dyadic_tie(rng) for _ in range(max(4, n // 20))] + [orthogonal_case(rng) for _ in range(max(6, n // 20))]
     for k, c in enumerate(gens):
         kind = HOPCLASSES[k % len(HOPCLASSES)]
         c, o = drive_hop(kind, c, rng)
+        if c["kind"] == "orthogonal-down":
+            res.count("hop/" + c["kind"]); res.count("class/" + kind)
+            res.case(("hop", kind, c["mass"], c["v"], c["dir"], c["en"]), True)
+            f = hop_oracle(c, o)
+            if f:
+                bad.append(dict(cls=kind, failed=f, case=c, impl=o))
+            continue
         cases.append(tup(bl(c["kind"] == "exact-tie"), tup(fls(c["mass"]), fls(c["v"]), fls(c["dir"]), fls(c["en"]), nat(c["state"]), nat(c["target"]),
                          nat(o["state"]), fls(o["v"]), bl(o["accepted"]))))
         meta.append(dict(cls=kind, case=c, impl=dict(state=o["state"], v=o["v"], accepted=o["accepted"])))
